@@ -520,4 +520,24 @@ theorem legacyForm_refuses_count [Add K] [Sub K] [Mul K] [Div K] [Neg K] [OfNat 
   obtain ⟨h2, h3, h5, h6, h7, h9, h13, h21⟩ := h
   simp [legacyForm, h2, h3, h5, h6, h7, h9, h13, h21]
 
+/-! ### the argument handling of `Atoms.model` and the masses guard of `System.model` as generated definitions -/
+
+/-- The statement `if prop_unit is None: … elif …: raise` at the top of `Atoms.model`, regenerated as a Lean definition
+    (defaults of the two lists, the refusals in their order, the dictionary filled from `zip(prop_name, unit)`), IS the
+    model's `resolveCall` — for every form of the three arguments and every object. -/
+theorem gen_resolveCall_eq_model (own : List String) (pn : Option (List String)) (un : Option (List (Option String)))
+    (pu : Option (List (String × Option String))) :
+    resolveCall own pn un pu = ModelSource.atomsResolveCall own pn un pu := by
+  cases pu with
+  | some d => cases pn <;> cases un <;> simp [resolveCall, ModelSource.atomsResolveCall]
+  | none =>
+    cases pn <;> cases un <;>
+      simp [resolveCall, ModelSource.atomsResolveCall, List.map_const', eq_comm]
+
+/-- The flag loop in front of the masses (`addmasses`), regenerated as a `List.any`, is the guard the model's
+    `systemModel` uses: the masses are written iff one of them is not `None` — a mass of exactly 0 counts. -/
+theorem gen_massesGuard_eq_model [OfNat K 0] [DecidableEq K] (ms : List (Option K)) :
+    ModelSource.massesGuard ms = ms.any Option.isSome := by
+  rfl
+
 end Atomman.C10
